@@ -8,12 +8,14 @@ open PP PP.Sexp PP.Settings
 
   cfg    ::= ((diagAll...) (diagFixed...) (diagWarn...) (compatAll...) (compatFixed...))      (strings)
   state  ::= (ws kw lit verbose packrat (cacheId cacheKind) parseSel lr (memoId memoKind)
-              ((name v)...) ((name v)...) ((ws copyDef fwdEmpty skip)...) ((ws copyDef fwdEmpty skip)...) gen)
+              ((name v)...) ((name v)...) ((ws copyDef fwdEmpty skip)...) ((ws copyDef fwdEmpty skip)...) gen
+              ((class attr)...))
   cacheKind ::= null | unbounded | (fifo n)        memoKind ::= dict | unbounded | (lru n)
   parseSel  ::= nocache | cache
   cmd    ::= enter | reenter | exit | exitcopy | restorelast | (setws s) | (setkw s) | (lit n) | (verbose b) | (packrat size force)
            | (lr cap force) | (disable) | (reset) | (diag name b) | (allwarn) | (compat name b)
-           | (compatassign name b) | (new) | (copy i) | (exprws i s b) | (wrap i) | (newfwd) | (fwdassign i j)
+           | (compatassign name b) | (new)      -- setws/setkw/lit/packrat/lr/disable/reset take an optional
+                                                   -- trailing route number (default 0) | (copy i) | (exprws i s b) | (wrap i) | (newfwd) | (fwdassign i j)
            | (leavews i) | (ignorews i) | (newalt i)          size/cap ::= None | int
   err    ::= ok | RuntimeError | NotImplementedError | ValueError | AttributeError
 
@@ -64,15 +66,22 @@ def exprs? (x : Sexp) : Option (List Expr) := do
         pure { ws := w.toList, copyDef := ← c.bool?, fwdEmpty := ← f.bool?, skip := ← k.bool? }
     | _ => none
 
+def pairs? (x : Sexp) : Option (List (String × String)) := do
+  let xs ← x.list?
+  xs.mapM fun
+    | .list [.str a, .str b] => some (a, b)
+    | _ => none
+
 def state? : Sexp → Option State
   | .list [.str ws, .str kw, lit, verbose, pk, .list [cid, ck], psel, lr, .list [mid, mk],
-           dg, cp, bs, us, gen] => do
+           dg, cp, bs, us, gen, sh] => do
     pure { defaultWs := ws, kwChars := kw, litCls := ← lit.nat?, verbose := ← verbose.bool?
            packratEnabled := ← pk.bool?, cache := ⟨← cid.nat?, ← cacheKind? ck⟩
            parseSel := ← parseSel? psel, lrEnabled := ← lr.bool?
            memo := ⟨← mid.nat?, ← memoKind? mk⟩
            diag := ← flags? dg, compat := ← flags? cp
-           builtins := ← exprs? bs, users := ← exprs? us, gen := ← gen.nat? }
+           builtins := ← exprs? bs, users := ← exprs? us, gen := ← gen.nat?
+           shadows := ← pairs? sh }
   | _ => none
 
 def cmd? : Sexp → Option Cmd
@@ -81,14 +90,21 @@ def cmd? : Sexp → Option Cmd
   | .atom "exit" => some (.exit false)
   | .atom "exitcopy" => some (.exit true)
   | .atom "restorelast" => some .restoreLast
-  | .list [.atom "setws", .str s] => some (.op (.setDefaultWs s))
-  | .list [.atom "setkw", .str s] => some (.op (.setKwChars s))
-  | .list [.atom "lit", n] => do pure (.op (.inlineLiterals (← n.nat?)))
+  | .list [.atom "setws", .str s] => some (.op (.setDefaultWs s 0))
+  | .list [.atom "setws", .str s, r] => do pure (.op (.setDefaultWs s (← r.nat?)))
+  | .list [.atom "setkw", .str s] => some (.op (.setKwChars s 0))
+  | .list [.atom "setkw", .str s, r] => do pure (.op (.setKwChars s (← r.nat?)))
+  | .list [.atom "lit", n] => do pure (.op (.inlineLiterals (← n.nat?) 0))
+  | .list [.atom "lit", n, r] => do pure (.op (.inlineLiterals (← n.nat?) (← r.nat?)))
   | .list [.atom "verbose", b] => do pure (.op (.setVerbose (← b.bool?)))
-  | .list [.atom "packrat", sz, f] => do pure (.op (.enablePackrat (← optInt? sz) (← f.bool?)))
-  | .list [.atom "lr", cap, f] => do pure (.op (.enableLR (← optInt? cap) (← f.bool?)))
-  | .list [.atom "disable"] => some (.op .disableMemo)
-  | .list [.atom "reset"] => some (.op .resetCache)
+  | .list [.atom "packrat", sz, f] => do pure (.op (.enablePackrat (← optInt? sz) (← f.bool?) 0))
+  | .list [.atom "packrat", sz, f, r] => do pure (.op (.enablePackrat (← optInt? sz) (← f.bool?) (← r.nat?)))
+  | .list [.atom "lr", cap, f] => do pure (.op (.enableLR (← optInt? cap) (← f.bool?) 0))
+  | .list [.atom "lr", cap, f, r] => do pure (.op (.enableLR (← optInt? cap) (← f.bool?) (← r.nat?)))
+  | .list [.atom "disable"] => some (.op (.disableMemo 0))
+  | .list [.atom "disable", r] => do pure (.op (.disableMemo (← r.nat?)))
+  | .list [.atom "reset"] => some (.op (.resetCache 0))
+  | .list [.atom "reset", r] => do pure (.op (.resetCache (← r.nat?)))
   | .list [.atom "diag", .str n, b] => do pure (.op (.diagSet n (← b.bool?)))
   | .list [.atom "allwarn"] => some (.op .enableAllWarnings)
   | .list [.atom "compat", .str n, b] => do pure (.op (.compatSet n (← b.bool?)))
@@ -126,7 +142,8 @@ def ofState (s : State) : Sexp :=
   .list [.str s.defaultWs, .str s.kwChars, ofNat s.litCls, ofBool s.verbose, ofBool s.packratEnabled,
          .list [ofNat s.cache.id, ofCacheKind s.cache.kind], ofParseSel s.parseSel, ofBool s.lrEnabled,
          .list [ofNat s.memo.id, ofMemoKind s.memo.kind], ofFlags s.diag, ofFlags s.compat,
-         ofExprs s.builtins, ofExprs s.users, ofNat s.gen]
+         ofExprs s.builtins, ofExprs s.users, ofNat s.gen,
+         .list (s.shadows.map fun p => .list [.str p.1, .str p.2])]
 
 def ofErr : Option Err → Sexp
   | none => .atom "ok"
